@@ -95,6 +95,9 @@ def _list_key(r, obj, ctxp):
     return ['none']
 
 
+# one tiny number spelled as a literal, computed three ways, and as the strings it could be cast to
+TINY_GROUP = [['num', '0.0000001'], ['bin', '*', ['num', '0.0000001'], ['num', '1']], ['bin', '/', ['num', '1'], ['num', '10000000']],
+              ['str', '1E-7'], ['str', '0.0000001'], ['bin', '-', ['num', '0.0000002'], ['num', '0.0000001']], ['num', '0.00000010']]
 EQ_GROUP = [['num', '1'], ['num', '1.0'], ['str', '1'], ['bool', True], ['str', '1.0'], ['str', 'True'], ['num', '01']]
 
 
@@ -109,14 +112,14 @@ def _dict_key(r, obj, ctxp):
             return ['num', r.choice(c)]
     if k == 'eqgroup':
         ctxp.append('equal_typed_key_pair')
-        return r.choice(EQ_GROUP)
+        return r.choice(EQ_GROUP) if r.random() < 0.8 else r.choice(TINY_GROUP)
     if k == 'num':
         return gen.num_tree(r)
     if k == 'none':
         return ['none']
     if k == 'bool':
         return ['bool', r.random() < 0.5]
-    return ['str', r.choice(['zz', 'q', 'a', 'b', 'new', '2', '3', 'a b', 'a  b', 'a\tb', 'x y', 'x  y'])]
+    return ['str', r.choice(['zz', 'q', 'a', 'b', 'new', '2', '3', 'a b', 'a  b', 'a\tb', 'x y', 'x  y', 'e\u0301', '\u00e9', '\u212b'])]
 
 
 def _value(r, model):
